@@ -38,12 +38,16 @@ type pluginPlan struct {
 	K       int    // diagnostics returned when ok/slow
 	Latency time.Duration
 	Sevs    []string
+	Arg     string // the annotation's argument: the same command may be attached twice with different arguments
 }
+
+func (p *pluginPlan) call() string { return p.Name + " " + p.Arg }
 
 type registry struct {
 	s     *ssched.Sched
-	plans map[string]*pluginPlan
-	seen  map[string]string // what the plugin decoded
+	plans map[string]*pluginPlan // by command name (LookPath)
+	calls map[string]*pluginPlan // by command name and argument (Run)
+	seen  map[string]string      // what the plugin decoded, by call
 	fired map[string]int
 }
 
@@ -63,7 +67,11 @@ func (e *exitErr) Error() string { return e.msg }
 
 func (r *registry) Run(ctx context.Context, path string, args []string, stdin io.Reader) ([]byte, []byte, error) {
 	name := path[strings.LastIndex(path, "/")+1:]
-	p := r.plans[name]
+	p := r.calls[name+" "+strings.Join(args, " ")]
+	if p == nil {
+		panic(fmt.Sprintf("partB: plugin %s started with arguments %q that no annotation has", name, args))
+	}
+	name = p.call()
 	r.s.Point("exec-start", name)
 	r.fired[p.Fate]++
 	// the plugin process reads its request with falco's real plugin package
@@ -120,13 +128,21 @@ func runPartB(c *worker.Ctx) {
 	var src strings.Builder
 	src.WriteString("sub vcl_recv {\n  #FASTLY RECV\n")
 	for i := 0; i < np; i++ {
-		p := &pluginPlan{Name: fmt.Sprintf("falco-p%d", i), Fate: "ok", K: c.T.Draw(4), Latency: time.Duration(c.T.Draw(2000)) * time.Millisecond}
+		p := &pluginPlan{Name: fmt.Sprintf("falco-p%d", i), Arg: fmt.Sprintf("arg%d", i), Fate: "ok", K: c.T.Draw(4), Latency: time.Duration(c.T.Draw(2000)) * time.Millisecond}
+		var twin *pluginPlan
+		if i > 0 && c.T.Bool(1, 5) {
+			twin = plans[c.T.Draw(i)] // the same command once more, with another argument
+			p.Name = twin.Name
+		}
 		if c.T.Bool(1, 12) {
 			// a chatty plugin: counts around and beyond any plausible internal buffer
 			p.K = []int{31, 32, 33, 63, 64, 65, 100, 257}[c.T.Draw(8)]
 		}
 		if faulty {
 			p.Fate = fates[c.T.Draw(len(fates))]
+		}
+		if twin != nil && (twin.Fate == "notfound") != (p.Fate == "notfound") {
+			p.Fate = map[bool]string{true: "notfound", false: "ok"}[twin.Fate == "notfound"] // a command is installed or it is not
 		}
 		if p.Fate == "slow" {
 			p.Latency = 5*time.Second - time.Duration(1+c.T.Draw(50))*time.Millisecond
@@ -135,7 +151,7 @@ func runPartB(c *worker.Ctx) {
 			p.Sevs = append(p.Sevs, []string{"E", "W", "I"}[c.T.Draw(3)])
 		}
 		plans = append(plans, p)
-		fmt.Fprintf(&src, "  // @plugin: p%d arg%d\n", i, i)
+		fmt.Fprintf(&src, "  // @plugin: %s %s\n", strings.TrimPrefix(p.Name, "falco-"), p.Arg)
 	}
 	src.WriteString("  set req.http.X-Target = \"v\";\n  return(lookup);\n}\n")
 
@@ -145,9 +161,10 @@ func runPartB(c *worker.Ctx) {
 	}
 	var s *ssched.Sched
 	var l *linter.Linter
-	reg := &registry{plans: map[string]*pluginPlan{}, seen: map[string]string{}, fired: map[string]int{}}
+	reg := &registry{plans: map[string]*pluginPlan{}, calls: map[string]*pluginPlan{}, seen: map[string]string{}, fired: map[string]int{}}
 	for _, p := range plans {
 		reg.plans[p.Name] = p
+		reg.calls[p.call()] = p
 	}
 	var panicV any
 	var stack string
@@ -191,7 +208,7 @@ func runPartB(c *worker.Ctx) {
 	planDesc := func() string {
 		var b strings.Builder
 		for _, p := range plans {
-			fmt.Fprintf(&b, "  %s fate=%s diagnostics=%d latency=%v decoded=%q\n", p.Name, p.Fate, p.K, p.Latency, reg.seen[p.Name])
+			fmt.Fprintf(&b, "  %s fate=%s diagnostics=%d latency=%v decoded=%q\n", p.Name, p.Fate, p.K, p.Latency, reg.seen[p.call()])
 		}
 		return b.String()
 	}
@@ -212,7 +229,7 @@ func runPartB(c *worker.Ctx) {
 			switch p.Fate {
 			case "ok", "slow":
 				for j := 0; j < p.K; j++ {
-					want[fmt.Sprintf("%s|diag %s #%d", map[string]string{"E": string(linter.ERROR), "W": string(linter.WARNING), "I": string(linter.INFO)}[p.Sevs[j]], p.Name, j)]++
+					want[fmt.Sprintf("%s|diag %s #%d", map[string]string{"E": string(linter.ERROR), "W": string(linter.WARNING), "I": string(linter.INFO)}[p.Sevs[j]], p.call(), j)]++
 				}
 			case "notfound":
 				want[string(linter.ERROR)+"|notfound:"+p.Name]++
@@ -273,8 +290,8 @@ func runPartB(c *worker.Ctx) {
 			res.Violate("C18/plugin-diagnostics", key, fmt.Sprintf("diagnostics reported differ from what the plugins returned: %v\nplugins:\n%s", diffs, planDesc()))
 		}
 		for _, p := range plans {
-			if p.Fate != "notfound" && reg.seen[p.Name] != "req.http.X-Target" && reg.seen[p.Name] != "" {
-				res.Violate("C18/plugin-request", "C18/plugin-request:decode", fmt.Sprintf("plugin %s decoded %q instead of the annotated statement", p.Name, reg.seen[p.Name]))
+			if p.Fate != "notfound" && reg.seen[p.call()] != "req.http.X-Target" && reg.seen[p.call()] != "" {
+				res.Violate("C18/plugin-request", "C18/plugin-request:decode", fmt.Sprintf("plugin %s decoded %q instead of the annotated statement", p.Name, reg.seen[p.call()]))
 			}
 		}
 		if reg.fired["hang"] > 0 {
